@@ -458,6 +458,13 @@ class Ctx:
                 if k['id'] not in [h[0] for h in self.known_hits]:
                     self.known_hits.append((k['id'], k['what'], sig))
                 return 'known'
+        if found_input and re.search(r"AttributeError.{0,200}?has no attribute \W{0,3}_[A-Za-z]",
+                                     json.dumps(detail, default=str)):
+            # the run died on a missing PRIVATE attribute: most likely a private name that this harness itself calls
+            # or wraps was renamed; that is a broken correspondence, not a failing input of the property
+            found_input = False
+            detail = {'note': 'run failed with AttributeError on a private name (harness hook or private helper renamed?): '
+                              'correspondence broken, no failing input of the property established', 'detail': detail}
         h = hashlib.sha1((sig + json.dumps(detail, sort_keys=True, default=str)).encode()).hexdigest()[:10]
         path = os.path.join(REPLAYS, '%s_%s.json' % (self.prop, h))
         self.nviol = getattr(self, 'nviol', 0) + 1
